@@ -103,6 +103,9 @@ func (m *Machine) threadBody(t *Thread, body func()) {
 			if pa.kind == "killed" {
 				return
 			}
+			if pa.kind == "deadlock" || pa.kind == "fatal" {
+				m.noteLiveness(pa)
+			}
 			m.finishPath(PathOutcome{pa.kind, pa.msg})
 			return
 		}
@@ -117,6 +120,7 @@ func (m *Machine) threadBody(t *Thread, body func()) {
 	body()
 	t.done = true
 	if t.id == 0 {
+		m.collectWitness()
 		m.finishPath(PathOutcome{Kind: "ok"})
 		return
 	}
@@ -204,11 +208,27 @@ func (m *Machine) switchTo(self, t *Thread) {
 func (m *Machine) scheduleAway(self *Thread) {
 	cands := m.others(self)
 	if len(cands) == 0 {
-		m.finishPath(PathOutcome{"deadlock", m.describeBlocked()})
+		pa := pathAbort{"deadlock", m.describeBlocked()}
+		m.noteLiveness(pa)
+		m.finishPath(PathOutcome{pa.kind, pa.msg})
 		return
 	}
 	k := m.choose(len(cands), "sched")
 	m.switchTo(self, cands[k])
+}
+
+// noteLiveness records a deadlock (or fatal runtime error) as a violation of the implicit
+// checks "nodeadlock" / "nofatal".
+func (m *Machine) noteLiveness(pa pathAbort) {
+	if m.killed {
+		return
+	}
+	defer func() { recover() }()
+	id := "no" + pa.kind
+	cs := m.stat(id)
+	cs.Reached++
+	cs.Violated++
+	m.recordViolation(id, m.pathModel(), pa.msg)
 }
 
 func (m *Machine) describeBlocked() string {
